@@ -440,6 +440,8 @@ func (w *_nodeRepr) Length() int64 {
 	case schema.UnionRepresentation_Kinded:
 		w = w.asKinded(stg, w.Kind())
 		return (*_node)(w).Length()
+	case schema.UnionRepresentation_Stringprefix:
+		return -1 // presents as a string
 	default:
 		return (*_node)(w).Length()
 	}
